@@ -164,6 +164,8 @@ public:
         Vec zero_v(a.vec_size, 0);
         res.dict_[zero_v] = 1_z;
 
+        if (p == 0)
+            return res;
         while (p != 1) {
             if (p % 2 == 0) {
                 tmp = tmp * tmp;
